@@ -459,6 +459,13 @@ func GenDoc(r *rand.Rand, p *AP, kind int) (toks []Tok, b []byte) {
 			}
 		}
 		return nil, []byte(sb.String())
+	case 9: // markup-free text with every kind of white space and odd bytes
+		var sb strings.Builder
+		words := []string{"plain", "text", "a", "\r", "\r\n", "\n", "\t", " ", "  ", "\x00", "é", "中", "\xff", "1", ".", ",", "-", "\x0c", "\x0b"}
+		for k := 1 + r.Intn(12); k > 0; k-- {
+			sb.WriteString(pickS(r, words))
+		}
+		return nil, []byte(sb.String())
 	case 4: // fragment soup
 		var sb strings.Builder
 		for k := 1 + r.Intn(10); k > 0; k-- {
